@@ -103,6 +103,9 @@ def _run(self):
         os._exit(3)
     found = flat(self.deps)
     value = ('N', self.label, tuple(found[i].result for i in self.reads))
+    if os.environ.get('LV_EPOCH'):
+        # histories: the same task computes a different value in every run_tasks call (the model sees the first three parts)
+        value = value + (os.environ['LV_EPOCH'],)
     _record(self, 'end')
     if self.beh == 'unpicklable':
         return (value, Unpicklable())
@@ -150,15 +153,18 @@ def _post_init(self):
 
 
 def _filter_first(self, context):
-    return {k: v for k, v in context.items() if k in ('a', f'k{self.label}')}
+    # deliberately not idempotent: 'applied' counts how many times the filter ran on the way to the task
+    out = {k: v for k, v in context.items() if k in ('a', f'k{self.label}')}
+    out['applied'] = context.get('applied', 0) + 1
+    return out
 
 
 _FIELDS = {'label': int, 'deps': Any, 'beh': str, 'reads': tuple, 'talk': tuple}
 
 
-def make_type(name, *, cache, max_parallel, post_init=False, filter_context=None, module=__name__):
+def make_type(name, *, cache, max_parallel, post_init=False, filter_context=None, module=__name__, run=None):
     ns = {'__annotations__': dict(_FIELDS), 'deps': (), 'beh': 'ok', 'reads': (), 'talk': (),
-          'run': _run, '__module__': module, '__qualname__': name}
+          'run': run or _run, '__module__': module, '__qualname__': name}
     if post_init:
         ns['post_init'] = _post_init
     if filter_context is not None:
